@@ -302,3 +302,30 @@ def deep_inheritance_models():
             nss = (na, Namespace('nb', (File(None, (), tuple(sorted(defs_nb, key=mm_def_key))),))) if split else (na,)
             out.append((Model(nss), ('deep-inheritance', ''.join('F' if x else '-' for x in pattern), 'two-namespaces' if split else 'one-namespace')))
     return out
+
+
+def path_route_models():
+    """Route names with a path (`get/metadata`, lang_ref "Route"): alone, with several versions, as the successor of a deprecated
+    route, next to a plain route of the corresponding underscore-free name, in one and two namespaces."""
+    from .model import (Model, Namespace, File, R, N, L, P, VOID, mkfield, mktag, mkstruct, mkunion, mkroute)
+    I32 = P('Int32', ())
+    arg = mkstruct('Parg', fields=[mkfield('a', I32)])
+    uni = mkunion('Perr', tags=[mktag('pv'), mktag('pt', I32)])
+    out = []
+    sets = [
+        ('single', [mkroute('get/metadata', 1, R(None, 'Parg'), VOID, R(None, 'Perr'))]),
+        ('versions', [mkroute('files/list/continue', 1, VOID, VOID, VOID), mkroute('files/list/continue', 2, R(None, 'Parg'), R(None, 'Parg'), VOID)]),
+        ('successor', [mkroute('files/list/continue', 2, R(None, 'Parg'), VOID, VOID), mkroute('old', 1, VOID, VOID, VOID, deprecated=('files/list/continue', 2)),
+                       mkroute('files/list/continue', 1, VOID, VOID, VOID, deprecated=True)]),
+        ('mixed', [mkroute('a/b', 1, R(None, 'Parg'), VOID, VOID), mkroute('ab', 1, VOID, R(None, 'Perr'), VOID), mkroute('a/b/c', 3, VOID, VOID, VOID)]),
+    ]
+    for lab, routes in sets:
+        defs = tuple(sorted([arg, uni] + routes, key=mm_def_key))
+        out.append((Model((Namespace('na', (File(None, (), defs),)),)), ('path-routes', lab, 'one-namespace')))
+        nb = Namespace('nb', (File(None, (), (arg, uni)),))
+
+        def q(t):
+            return R('nb', t.name) if isinstance(t, R) else t
+        routes2 = tuple(sorted([r._replace(arg=q(r.arg), result=q(r.result), error=q(r.error)) for r in routes], key=mm_def_key))
+        out.append((Model((Namespace('na', (File(None, ('nb',), routes2),)), nb)), ('path-routes', lab, 'types-imported')))
+    return out
